@@ -2,6 +2,10 @@
 use std::sync::atomic::{AtomicUsize, Ordering};
 use std::sync::{Arc, Mutex};
 
+/// Panics caught in case closures (a harness defect, never a verdict): `Report::finish` turns a non-empty list
+/// into exit 2, so that a case can never vanish silently.
+pub static PANICS: Mutex<Vec<String>> = Mutex::new(Vec::new());
+
 pub fn run_cases<T: Send + 'static>(n: usize, workers: usize, f: impl Fn(usize) -> T + Send + Sync + 'static) -> Vec<T> {
     let next = Arc::new(AtomicUsize::new(0));
     let out: Arc<Mutex<Vec<Option<T>>>> = Arc::new(Mutex::new((0..n).map(|_| None).collect()));
@@ -16,8 +20,13 @@ pub fn run_cases<T: Send + 'static>(n: usize, workers: usize, f: impl Fn(usize) 
             if i >= n {
                 break;
             }
-            let r = f(i);
-            out.lock().unwrap()[i] = Some(r);
+            match std::panic::catch_unwind(std::panic::AssertUnwindSafe(|| f(i))) {
+                Ok(r) => out.lock().unwrap()[i] = Some(r),
+                Err(e) => {
+                    let msg = e.downcast_ref::<String>().cloned().or_else(|| e.downcast_ref::<&str>().map(|s| s.to_string())).unwrap_or_else(|| "panic".into());
+                    PANICS.lock().unwrap().push(format!("case {}: {}", i, msg));
+                }
+            }
         }));
     }
     for h in hs {
